@@ -98,7 +98,18 @@ def decompose(test, pol):
     return res
 
 
+class _DropWalrus(ast.NodeTransformer):
+
+    def visit_NamedExpr(self, n):
+        return ast.Name(id=n.target.id, ctx=ast.Load()) if isinstance(
+            n.target, ast.Name) else n
+
+
 def fact_key(expr, pol):
+    # a fact about ``(v := E)`` is, once it holds, a fact about ``v``
+    if any(isinstance(x, ast.NamedExpr) for x in ast.walk(expr)):
+        import copy
+        expr = _DropWalrus().visit(copy.deepcopy(expr))
     return (unparse(expr), pol)
 
 
